@@ -75,12 +75,12 @@ func corpusChunk(r *kernel.RNG, maxLines int) string {
 var tgSyms = []string{"a", "b", "foo", "x1", "long-name", "q?", "b.c", "a.b.c", ".x", "nil", "true", "false", "$", "&", "hget", "def", "fn"}
 var tgKeys = []string{"a:", "key:", "b2:"}
 var tgNums = []string{"0", "1", "-1", "42", "-7", "1_000", "0x1F", "0o17", "0b101", "1.5", "-2.5", ".5", "1e3", "1e-3", "-2.5e+3", "1E10", "3ULL", "0xffULL", "1.", "NaN", "9223372036854775807"}
-var tgStrs = []string{"\"p\n\nq\"", `""`, `"s"`, `"a b"`, `"a\"b"`, `"x\\y"`, `"tab\there"`, `"nl\nx"`, `"((("`, `"]})"`, `"// not a comment"`, `"/* nor this */"`, "\"tick ` tick\"", `"é世界"`, `"'q'"`, `"a\#b"`, "\"one\r\ntwo\"", "\"cr\rlf\"", "\"\r\n\""}
-var tgRaws = []string{"``", "`raw`", "`raw \"q\" (`", "`two\nlines`", "`// c`", "`a\\b`", "`]}`", "`first\n\nthird`", "`\n`", "`a\n\n\nb\n`", "`r1\r\nr2`", "`\r\n`"}
+var tgStrs = []string{"\"p\n\nq\"", `""`, `"s"`, `"a b"`, `"a\"b"`, `"x\\y"`, `"tab\there"`, `"nl\nx"`, `"((("`, `"]})"`, `"// not a comment"`, `"/* nor this */"`, "\"tick ` tick\"", `"é世界"`, `"'q'"`, `"a\#b"`, "\"one\r\ntwo\"", "\"cr\rlf\"", "\"\r\n\"", "\"a\uFEFFb\"", "\"\uFEFF\"", "\"n\x00l\""}
+var tgRaws = []string{"``", "`raw`", "`raw \"q\" (`", "`two\nlines`", "`// c`", "`a\\b`", "`]}`", "`first\n\nthird`", "`\n`", "`a\n\n\nb\n`", "`r1\r\nr2`", "`\r\n`", "`a\uFEFFb`"}
 var tgChars = []string{"'a'", "'Z'", "'('", "'\\n'", "'\\''", "'\"'", "' '", "'é'"}
 var tgOps = []string{"+", "-", "*", "/", "<", "<=", ">", ">=", "==", "!=", "**", "and", "or", "not", "mod"}
 var tgInfixOps = []string{"+", "-", "*", "/", "<", "<=", ">", ">=", "==", "!=", "**", "=", ":=", "+=", "-=", "&&", "||"}
-var tgComments = []string{"// c\n", "// ( \" [ {\n", "/* b */", "/* ( \" \n ] */", "/**/", "/* * / */", "//\n", "/* x\n\n y */", "/*\n\n*/", "// c\r\n", "/* a\r\nb */", "/* c **/", "/***/", "/* ** */", "/* * **/"}
+var tgComments = []string{"// c\n", "// ( \" [ {\n", "/* b */", "/* ( \" \n ] */", "/**/", "/* * / */", "//\n", "/* x\n\n y */", "/*\n\n*/", "// c\r\n", "/* a\r\nb */", "/* c **/", "/***/", "/* ** */", "/* * **/", "/* a\uFEFFb */", "// \uFEFF\n"}
 var tgWs = []string{" ", " ", " ", "\n", "  ", "\t", "\r\n", " \n "}
 
 type textGen struct {
